@@ -7,29 +7,52 @@ In-process correspondence (real function vs Lean model, result must be one of th
   cuts    whatshap.polyphase.algorithm.compute_cut_positions     <-> c15.cuts    (exact, IEEE doubles on both sides)
   psi     whatshap.cli.polyphase.phase_single_individual (solver stubbed by a generated PolyphaseResult)
                                                                   <-> c15.components (final dict + phased positions)
+  glue    the steps of run_polyphase between the variant table and solve_polyphase_instance, with the real helpers
+          (remove_rows_by_index, ReadSet.subset, subset_rows_by_position, create_genotype_list, AlleleMatrix)
+          on tables / read sets built through the real API                <-> c15.glue, c15.blockstarts
+  vcfio   VcfReader / PhasedVcfWriter.write on generated records (duplicates, >= 16 ALTs, mixed SNV/indel ALTs, no ALT,
+          unsorted, wrong ploidy) with a generated phase and component dictionary <-> c15.readtable, c15.write
+  agg / threads / assign   aggregate_results, find_breakpoints, get_optimal_assignments <-> c15.aggregate, c15.integrate,
+          c15.assignments
+  pipe    the REAL run_polyphase in this process (threads=1) on every CLI case, with recorders (class Recorder) around
+          PhasedInputReader.read, solve_polyphase_instance (also the recursive calls for sub-instances),
+          compute_block_starts, phase_single_block, force_genotypes, run_threading, find_subinstances,
+          integrate_sub_results, get_optimal_assignments, permute_blocks, aggregate_results, compute_cut_positions,
+          phase_single_individual; every recorded stage is compared with the model (c15.readtable, c15.glue,
+          c15.blockstarts incl. the genotype slices by object identity, c15.singleton, c15.force, c15.writeback,
+          c15.integrate, c15.assignments, c15.permute, c15.aggregate, c15.cuts, c15.components) and the written VCF
+          with the writer model (c15.write).
 Property oracle (Python, independent of the model) on every in-process result and on the output VCF of real
 `whatshap polyphase` runs on generated polyploid data.
 """
 import collections, itertools, json, math, os, shutil, struct
 
-from harness.gen import sim, c15_poly
+from harness.gen import sim, c15_poly, c15_glue
 
 RULE = ("in-process: generated columns/genotypes/cluster depths (force_genotypes), thread+haplotype matrices with "
         "breakpoints and permutations (permute_blocks), breakpoint lists with confidences for all six sensitivities "
         "(compute_cut_positions), accessible positions + stubbed solver result (phase_single_individual); a case is "
         "non-trivial if a permutation stage is entered (force), some block permutation is not the identity (permute), "
-        "there are >= 2 breakpoints with non-zero confidence (cuts), there are >= 2 cuts (psi). CLI: a polyphase run is "
+        "there are >= 2 breakpoints with non-zero confidence (cuts), there are >= 2 cuts (psi), the solver is reached "
+        "and some heterozygous variant is in no column (glue), a record is skipped by the reader while some call is "
+        "phased (vcfio), >= 2 blocks (agg), >= 1 breakpoint (threads), >= 2 breakpoints (assign). CLI: a polyphase run is "
         "non-trivial if it phases >= 2 variants; distinct = distinct serialised case")
 MANIFEST = dict(
-    text="Lean 4 theorems about a hand-written model of the enforcing stages of whatshap polyphase (force_genotypes per "
-         "column, permute_blocks, compute_cut_positions + component dictionary) with the clustering/threading heuristic "
-         "universally quantified: every chosen permutation yields exactly the genotype's alleles, reordering preserves "
-         "every column's multiset, components are disjoint intervals named by their first position; tied to the working "
+    text="Lean 4 theorems about a hand-written model of whatshap polyphase around its heuristics: the VCF reader's row "
+         "selection, the glue of run_polyphase up to the solver call (alignment of the genotype list with the allele-matrix "
+         "columns for every input), what solve_polyphase_instance does with the genotype list (block slices, one-variant "
+         "blocks, force_genotypes, recursive sub-instance write-back, permute_blocks, get_optimal_assignments), where "
+         "breakpoints come from (find_breakpoints, sub-instances, sort, join, aggregate_results), compute_cut_positions + "
+         "component dictionary, and the VCF writer — with the clustering/threading/likelihood heuristics universally "
+         "quantified: every phased genotype in the output lists exactly the alleles of the input genotype, only "
+         "heterozygous non-skipped rows are phased, components are disjoint intervals named by their first position "
+         "(end to end from the block results); tied to the working "
          "tree by in-process differential runs of those functions and by an independent oracle on the output VCF of real "
          "`whatshap polyphase` runs on generated polyploid data (ploidy 2-6, multi-allelic, collapsed haplotypes, uneven "
          "coverage, all block-cut sensitivities, --use-prephasing)",
     design_ref="DESIGN.md §5 C15",
-    note="proof covers the enforcing stages only; the end-to-end claim is differential (bounded by the generator). The "
+    note="the end-to-end theorems quantify over every column the modelled stages can produce from arbitrary heuristic "
+         "output (not over the heuristics' code); the BAM reader is an input (its contract is checked on every run). The "
          "code's -inf fallback in force_genotypes (F8) is modelled as an admissible outcome and proved to violate the "
          "genotype whenever taken; the check reports it (reachable through the CLI with >= 249 reads per cluster and a "
          "genotype the reads contradict). Trusted: Lean kernel, axioms ⊆ {propext, Classical.choice, Quot.sound}, the "
@@ -42,6 +65,10 @@ ASSUMPTIONS = [
     "block_cut_sensitivity in 0..5 (validated by the CLI)",
     "the likelihood that picks the permutation (scipy binom.pmf) is not modelled: any permutation of alleles_to_insert is admissible",
     "--distrust-genotypes is outside the property; --tag HP output is C09's subject and not run here",
+    "the BAM reader reports alleles only at positions of the variants it was asked for (hypothesis of genotype_list_aligned; checked on the real reader in every pipeline run, key reader-contract)",
+    "run_threading returns ploidy haplotypes per block and sub-instance thread sets of one position are disjoint (recorded and checked: c15.writeback `disjoint`)",
+    "the writer model is per sample: another sample only decides whether a record passes the 'phased in any sample' gate, which does not change this sample's GT / phased flag / PS",
+    "get_optimal_assignments with pre-phasing affiliations (ILP) is not modelled: oracle only (results are permutations)",
 ]
 
 F8_KEY = "F8-force-genotypes-neg-inf-fallback"
@@ -335,13 +362,719 @@ def check_psi(ctx, case, batch):
 
 def after_exact(ctx, req, meta, ans):
     kind, case, impl = meta
-    if kind == "psi":
+    if kind == "exact":
+        model = {k: ans.get(k) for k in impl}
+    elif kind == "psi":
         model = {"dict": sorted(ans.get("dict", [])), "phased": sorted(case["acc"][j] for j in ans.get("phased", []))}
     else:
         model = ans
     if model != impl:
         ctx.disagree(req["op"], case, impl, model)
 
+
+
+# ------------------------------------------------------------------------------------------------
+# glue of run_polyphase / block structure of the solver (Model/C15Glue.lean, Model/C15Solve.lean)
+# ------------------------------------------------------------------------------------------------
+
+MAX_ALLELES, MAX_PLOIDY = 16, 15
+
+
+def model_cfg(k, mav=True, only_snvs=False, min_overlap=2):
+    return {"ploidy": k, "mav": mav, "only_snvs": only_snvs, "max_alleles": MAX_ALLELES, "max_ploidy": MAX_PLOIDY,
+            "min_overlap": min_overlap}
+
+
+def dict_items(d):
+    """a Python dict as the model sees it: items in iteration order"""
+    return [[int(a), int(n)] for a, n in d.items()]
+
+
+def am_reads(am):
+    return [[int(p) for p, _ in am.getRead(i)] for i in range(len(am))]
+
+
+def run_glue(case):
+    """the steps of run_polyphase between `variant_table` and `solve_polyphase_instance`, with the real helper
+    functions on a VariantTable / ReadSet built through the real API"""
+    from copy import deepcopy
+    from whatshap.core import Genotype, Read, ReadSet
+    from whatshap.vcf import VariantTable, BiallelicVcfVariant
+    from whatshap.polyphase import create_genotype_list, compute_block_starts
+    from whatshap.polyphase.solver import AlleleMatrix
+    k, m = case["ploidy"], case["min_overlap"]
+    vt = VariantTable("chr1", ["S"])
+    for pos, gt in case["rows"]:
+        vt.add_variant(BiallelicVcfVariant(pos, "A", "C"), [Genotype(list(gt) if gt is not None else [])], [None], [None], [None])
+    genotypes = vt.genotypes_of("S")
+    heterozygous = {i for i, gt in enumerate(genotypes) if not gt.is_none() and not gt.is_homozygous()}
+    phasable = deepcopy(vt)
+    phasable.remove_rows_by_index(set(range(len(vt))).difference(heterozygous))
+    out = {"het": [[v.position, sorted(g.as_vector())] for v, g in zip(phasable.variants, phasable.genotypes_of("S"))]}
+    if len(phasable) < 2:
+        out["kind"] = "few-variants"
+        return out
+    readset = ReadSet()
+    for i, r in enumerate(case["reads"]):
+        read = Read(f"r{i}", 60, 0, 0)
+        for p, a in r:
+            read.add_variant(p, a, 30)
+        readset.add(read)
+    readset.sort()
+    readset = readset.subset([i for i, read in enumerate(readset) if len(read) >= max(2, m)])
+    if len(readset) == 0:
+        out["kind"] = "no-reads"
+        return out
+    phasable.subset_rows_by_position(readset.get_positions())
+    gl = create_genotype_list(phasable, "S")
+    am = AlleleMatrix(readset)
+    out.update(kind="solve", cols=[int(p) for p in am.getPositions()],
+               rows=[[v.position, sorted(g.as_vector())] for v, g in zip(phasable.variants, phasable.genotypes_of("S"))],
+               genotypes=[dict_items(g) for g in gl], nkept=len(am), accessible=sorted(readset.get_positions()))
+    out["am_reads"] = am_reads(am)
+    out["starts"] = {sl: compute_block_starts(am, k, single_linkage=sl) for sl in (True, False)}
+    return out
+
+
+def recs_for_model(rows):
+    """variant-table rows -> model records (biallelic SNVs)"""
+    return [[p, 1, True, True, list(g) if g is not None else [], False] for p, g in rows]
+
+
+def norm_rows(rows):
+    return [[p, sorted(g)] for p, g in rows]
+
+
+def check_glue(ctx, case, batch):
+    impl = run_glue(case)
+    k = case["ploidy"]
+    ctx.dist("glue_kind", impl["kind"])
+    if impl["kind"] == "solve":
+        # alignment oracle, independent of the model: one genotype per column, that of the row at the column's position
+        by_pos = {p: g for p, g in case["rows"]}
+        cols, gl = impl["cols"], impl["genotypes"]
+        if cols != impl["accessible"]:
+            ctx.fail(f"allele matrix columns {cols} differ from the read set's positions {impl['accessible']}", case,
+                     key="glue-columns")
+        if len(gl) != len(cols):
+            ctx.fail(f"genotype list has {len(gl)} entries for {len(cols)} allele-matrix columns", case, key="glue-misaligned")
+        else:
+            for i, p in enumerate(cols):
+                want = collections.Counter(by_pos.get(p) or [])
+                if {a: n for a, n in gl[i]} != dict(want) or len(set(by_pos.get(p) or [])) < 2:
+                    ctx.fail(f"genotype list entry {i} is {gl[i]} but column {i} is position {p} with input genotype "
+                             f"{by_pos.get(p)}", case, key="glue-misaligned")
+                    break
+        for sl, st in impl["starts"].items():
+            if not st or st[0] != 0 or any(a >= b for a, b in zip(st, st[1:])) or st[-1] >= len(cols):
+                ctx.fail(f"block starts {st} (single_linkage={sl}) for {len(cols)} variants", case, key="block-starts")
+            batch.append(({"op": "c15.blockstarts", "reads": impl["am_reads"], "num_vars": len(cols), "ploidy": k,
+                           "single_linkage": sl, "genotypes": [[i] for i in range(len(cols))]},
+                          ("blockstarts", case, st)))
+    batch.append(({"op": "c15.glue", "cfg": model_cfg(k, min_overlap=case["min_overlap"]),
+                   "table": recs_for_model(case["rows"]), "reads": case["reads"]}, ("glue", case, impl)))
+    return impl["kind"] == "solve" and len(impl["cols"]) < len(impl["het"])
+
+
+def after_glue(ctx, req, meta, ans):
+    _, case, impl = meta
+    model = {"kind": ans.get("kind"), "het": norm_rows(ans.get("het", []))}
+    mine = {"kind": impl["kind"], "het": impl["het"]}
+    if impl["kind"] == "solve":
+        mine.update(cols=impl["cols"], rows=impl["rows"], genotypes=impl["genotypes"], nkept=impl["nkept"])
+        model.update(cols=ans.get("cols"), rows=norm_rows(ans.get("rows", [])), genotypes=ans.get("genotypes"),
+                     nkept=ans.get("nkept"))
+    if model != mine:
+        ctx.disagree("c15.glue", case, mine, model)
+
+
+def after_blockstarts(ctx, req, meta, ans):
+    _, case, impl = meta
+    if ans.get("starts") != impl:
+        ctx.disagree("c15.blockstarts", case, impl, ans.get("starts"))
+
+
+# -- VcfReader / PhasedVcfWriter on generated records ------------------------------------------------
+
+def vcfio_records(case):
+    k = case["ploidy"]
+    recs = []
+    for r in case["recs"]:
+        if r["gt"] is None:
+            gt = "/".join(["."] * k)
+        else:
+            gt = ("|" if r["phased"] else "/").join(map(str, r["gt"]))
+        calls = [{"GT": gt, "PS": r["ps"] if r["ps"] is not None else "."}]
+        if case.get("other"):
+            calls.append({"GT": "/".join(["0"] * (k - 1) + ["1"]) if r["alts"] else "/".join(["0"] * k), "PS": "."})
+        recs.append({"chrom": "chr1", "pos": r["pos"], "ref": r["ref"], "alts": r["alts"], "format": ["GT", "PS"],
+                     "calls": calls})
+    return recs
+
+
+def model_recs(recs):
+    """records (dicts with pos/ref/alts/gt/phased) -> model records"""
+    out = []
+    for r in recs:
+        ref, alts = r["ref"], r["alts"]
+        out.append([r["pos"], len(alts), len(ref) == 1 and all(len(a) == 1 for a in alts),
+                    len(ref) == 1 and bool(alts) and len(alts[0]) == 1, list(r["gt"]) if r["gt"] is not None else [],
+                    bool(r.get("phased"))])
+    return out
+
+
+def reader_accepts(recs, k, mav, only_snvs):
+    """which records become rows of the variant table — written from the documentation of the reader's behaviour,
+    independently of the model (None: the reader raises)"""
+    acc, prev = [], None
+    for i, r in enumerate(recs):
+        alts = r["alts"]
+        if not alts:
+            continue
+        if len(alts) > 1 and (not mav or len(alts) >= MAX_ALLELES):
+            continue
+        if only_snvs and not (len(r["ref"]) == 1 and all(len(a) == 1 for a in alts)):
+            continue
+        if prev is not None and prev > r["pos"]:
+            return None
+        if prev == r["pos"]:
+            continue
+        prev = r["pos"]
+        if r["gt"] is not None and len(r["gt"]) != k:
+            return None
+        acc.append(i)
+    return acc
+
+
+def run_vcfio(ctx, case):
+    from whatshap.core import Read, ReadSet
+    from whatshap.vcf import VcfReader, PhasedVcfWriter, VcfNotSortedError, PloidyError
+    k = case["ploidy"]
+    d = os.path.join(ctx.workdir(), "vcfio")
+    os.makedirs(d, exist_ok=True)
+    vcf, out = os.path.join(d, "in.vcf"), os.path.join(d, "out.vcf")
+    samples = ["S"] + (["O"] if case.get("other") else [])
+    sim.write_vcf(vcf, {"chr1": "A" * 2000}, samples, vcfio_records(case),
+                  fmt_defs={"PS": '##FORMAT=<ID=PS,Number=1,Type=Integer,Description="Phase set">'})
+    res = {}
+    import io, contextlib
+    try:
+        with contextlib.redirect_stdout(io.StringIO()):     # the reader prints the offending phase before raising PloidyError
+            with VcfReader(vcf, only_snvs=case["only_snvs"], phases=True, genotype_likelihoods=False, ploidy=k,
+                           mav=case["mav"]) as vr:
+                tables = list(vr)
+        res["table"] = [[v.position, sorted(g.as_vector())] for t in tables
+                        for v, g in zip(t.variants, t.genotypes_of("S"))]
+    except VcfNotSortedError:
+        res["table"] = "not-sorted"
+    except PloidyError:
+        res["table"] = "ploidy"
+    superreads = ReadSet()
+    for h in range(k):
+        read = Read(f"superread {h + 1}", 0, 0)
+        for p, ph in sorted(case["phases"]):
+            read.add_variant(p, ph[h], 0)
+        superreads.add(read)
+    comps = {}
+    for p, nm in case["comps"]:
+        comps[p] = nm
+    with open(out, "w") as f:
+        with PhasedVcfWriter(command_line=None, in_path=vcf, out_file=f, tag="PS", ploidy=k,
+                             only_snvs=case["only_snvs"], mav=case["mav"]) as w:
+            w.write("chr1", {"S": superreads}, {"S": comps})
+    _, _, rout = sim.read_vcf(out)
+    calls = []
+    for r in rout:
+        c = r["calls"][0]
+        al, ph = c["GT"] if c.get("GT") else (None, False)
+        calls.append([[] if al is None or any(a is None for a in al) else list(al), bool(ph), c.get("PS")])
+    res["calls"] = calls
+    res["other"] = [sim.read_vcf_text(out)[1][i][2][1] for i in range(len(rout))] if case.get("other") else None
+    return res
+
+
+def check_vcfio(ctx, case, batch):
+    impl = run_vcfio(ctx, case)
+    k = case["ploidy"]
+    cfg = model_cfg(k, case["mav"], case["only_snvs"])
+    recs = case["recs"]
+    acc = reader_accepts(recs, k, case["mav"], case["only_snvs"])
+    # oracle (F50): a record that is not a row of the variant table is passed through: unphased, same alleles
+    if acc is not None:
+        for i, r in enumerate(recs):
+            if i in acc:
+                continue
+            al, ph, ps = impl["calls"][i]
+            if ph or sorted(al) != sorted(r["gt"] or []):
+                ctx.fail(f"record {i} at {r['pos'] + 1} ({r['ref']}>{','.join(r['alts']) or '.'}, GT {r['gt']}) is skipped by the "
+                         f"VCF reader but the writer turned its call into {al} phased={ph} PS={ps}", case,
+                         key="cli-skipped-record-phased")
+                break
+    if impl["other"] is not None:
+        for i, txt in enumerate(impl["other"]):
+            want = ("/".join(["0"] * (k - 1) + ["1"]) if recs[i]["alts"] else "/".join(["0"] * k)) + ":."
+            if txt != want:
+                ctx.fail(f"record {i}: call of a sample that is not being phased changed {want} -> {txt}", case,
+                         key="cli-other-sample")
+                break
+    ctx.dist("vcfio_table", impl["table"] if isinstance(impl["table"], str) else "ok")
+    batch.append(({"op": "c15.readtable", "cfg": cfg, "recs": model_recs(recs)}, ("readtable", case, impl["table"])))
+    batch.append(({"op": "c15.write", "cfg": cfg, "repaired": True, "recs": model_recs(recs),
+                   "cols": [p for p, _ in sorted(case["phases"])], "haps": [ph for _, ph in sorted(case["phases"])],
+                   "comps": case["comps"]}, ("write", case, impl["calls"])))
+    return acc is not None and len(acc) < len(recs) and any(c[1] for c in impl["calls"])
+
+
+def after_readtable(ctx, req, meta, ans):
+    _, case, impl = meta
+    model = norm_rows(ans["ok"]) if "ok" in ans else ans.get("error")
+    if model != impl:
+        ctx.disagree("c15.readtable", case, impl, model)
+
+
+def after_write(ctx, req, meta, ans):
+    _, case, impl = meta
+    model = [[c[0], c[1], c[2]] for c in ans.get("calls", [])]
+    if model != impl:
+        diff = [i for i, (a, b) in enumerate(zip(model, impl)) if a != b][:3]
+        ctx.disagree("c15.write", case, {"first_differences": diff, "calls": impl}, model)
+
+
+# -- aggregate_results / find_breakpoints / get_optimal_assignments -----------------------------------
+
+def check_agg(ctx, case, batch):
+    from whatshap.polyphase import PolyphaseBlockResult, PhaseBreakpoint
+    from whatshap.polyphase.algorithm import aggregate_results
+    k = case["ploidy"]
+    results = [PolyphaseBlockResult(i, [], [], [[0] * n for _ in range(k)], [PhaseBreakpoint(p, h, c) for p, h, c in bps])
+               for i, (n, bps) in enumerate(case["blocks"])]
+    res = aggregate_results(results, k, set(case["borders"]) if case["borders"] else [])
+    got = [[b.position, list(b.haplotypes), f2bits(b.confidence)] for b in res.breakpoints]
+    total = sum(n for n, _ in case["blocks"])
+    if not got or got[0] != [0, list(range(k)), f2bits(0.0)]:
+        ctx.fail(f"aggregate_results: first breakpoint is {got[:1]}, not (0, all haplotypes, 0.0)", case, key="agg-first")
+    if any(a[0] > b[0] for a, b in zip(got, got[1:])) or any(b[0] >= total for b in got):
+        ctx.fail(f"aggregate_results: breakpoint positions {[b[0] for b in got]} not sorted inside {total} columns", case,
+                 key="agg-sorted")
+    if [len(h) for h in res.haplotypes] != [total] * k:
+        ctx.fail("aggregate_results: haplotype lengths differ from the sum of the block lengths", case, key="agg-length")
+    batch.append(({"op": "c15.aggregate", "ploidy": k, "borders": case["borders"],
+                   "blocks": [[n, [[p, h, f2bits(c)] for p, h, c in bps]] for n, bps in case["blocks"]]},
+                  ("exact", case, {"bps": got, "total": total})))
+    return len(case["blocks"]) >= 2
+
+
+def check_threads(ctx, case, batch):
+    from whatshap.polyphase.reorder import find_breakpoints
+    th = case["threads"]
+    if not th:
+        return False
+    got = [[b.position, list(b.haplotypes), f2bits(b.confidence)] for b in find_breakpoints([t[:] for t in th])]
+    if any(not (1 <= b[0] < len(th)) for b in got) or any(a[0] >= b[0] for a, b in zip(got, got[1:])):
+        ctx.fail(f"find_breakpoints: positions {[b[0] for b in got]} for {len(th)} rows", case, key="findbps-range")
+    batch.append(({"op": "c15.integrate", "threads": th, "subs": []}, ("exact", case, {"find": got, "out": got})))
+    return len(got) >= 1
+
+
+def check_assign(ctx, case, batch):
+    from whatshap.polyphase import PhaseBreakpoint
+    from whatshap.polyphase.reorder import get_optimal_assignments
+    k = case["ploidy"]
+    bps = [PhaseBreakpoint(i + 1, b["haps"], 0.0) for i, b in enumerate(case["bps"])]
+    lllh = [{tuple(key): v for key, v in b["llh"]} for b in case["bps"]]
+    got = get_optimal_assignments(bps, lllh, k, None)
+    for i, a in enumerate(got):
+        if sorted(a) != list(range(k)):
+            ctx.fail(f"block {i}: assignment {a} is not a permutation of range({k})", case, key="reorder-not-a-permutation")
+    choices = [list(max(d, key=d.get)) for d in lllh]
+    batch.append(({"op": "c15.assignments", "ploidy": k,
+                   "lllh": [[[list(key), f2bits(v)] for key, v in d.items()] for d in lllh]},
+                  ("exact", case, {"choices": choices, "assignments": [list(a) for a in got]})))
+    return len(bps) >= 2
+
+
+# ------------------------------------------------------------------------------------------------
+# the real run_polyphase, in-process, with recorders around the functions the model covers
+# ------------------------------------------------------------------------------------------------
+
+class Recorder:
+    """wraps (never replaces) functions of whatshap.cli.polyphase / whatshap.polyphase.* while run_polyphase runs
+    single-threaded in this process; every wrapper calls the real function and notes arguments and result"""
+
+    def __init__(self):
+        self.samples = []      # one dict per (chromosome, sample) for which the BAM reader was asked
+        self.solves = []       # every solve_polyphase_instance call (top level and sub-instances), in call order
+        self.stack = []
+        self.saved = []
+
+    def patch(self, mod, name, fn):
+        self.saved.append((mod, name, getattr(mod, name)))
+        setattr(mod, name, fn)
+
+    def __enter__(self):
+        import whatshap.cli.polyphase as cp
+        import whatshap.polyphase.algorithm as alg
+        import whatshap.polyphase.threading as thr
+        import whatshap.polyphase.reorder as reo
+        rec = self
+        real_read = cp.PhasedInputReader.read
+
+        def read(self_, chromosome, variants, sample, *a, **kw):
+            rs, ids = real_read(self_, chromosome, variants, sample, *a, **kw)
+            rec.samples.append({"chrom": chromosome, "sample": sample, "asked": [v.position for v in variants],
+                                "reads": [[[v.position, v.allele] for v in r] for r in rs]})
+            return rs, ids
+        self.patch(cp.PhasedInputReader, "read", read)
+
+        real_psi = cp.phase_single_individual
+
+        def psi(readset, table, sample, param, output, timers):
+            cur = rec.samples[-1]
+            cur["table"] = [[v.position, sorted(g.as_vector())] for v, g in zip(table.variants, table.genotypes_of(sample))]
+            cur["top"] = len(rec.solves)
+            comps, hcomps, sr = real_psi(readset, table, sample, param, output, timers)
+            cur["comps"] = sorted([int(a), int(b)] for a, b in comps.items())
+            cur["superreads"] = [[[v.position, v.allele] for v in r] for r in sr]
+            return comps, hcomps, sr
+        self.patch(cp, "phase_single_individual", psi)
+
+        real_cuts = cp.compute_cut_positions
+
+        def cuts(breakpoints, ploidy, B):
+            r = real_cuts(breakpoints, ploidy, B)
+            rec.samples[-1]["cuts"] = {"bps": [[b.position, list(b.haplotypes), f2bits(b.confidence)] for b in breakpoints],
+                                       "ploidy": ploidy, "B": B, "cuts": list(r[0]), "hap_cuts": [list(h) for h in r[1]]}
+            return r
+        self.patch(cp, "compute_cut_positions", cuts)
+
+        real_solve = alg.solve_polyphase_instance
+
+        def solve(allele_matrix, genotype_list, param, timers, partial_phasing=None, quiet=False):
+            e = {"cols": [int(p) for p in allele_matrix.getPositions()], "nreads": len(allele_matrix),
+                 "genotypes": [dict_items(g) for g in genotype_list], "gl_ids": [id(g) for g in genotype_list],
+                 "ploidy": param.ploidy, "B": param.block_cut_sensitivity, "blocks": [], "depth": len(rec.stack),
+                 "prephasing": partial_phasing is not None}
+            rec.solves.append(e)
+            rec.stack.append(e)
+            try:
+                res = real_solve(allele_matrix, genotype_list, param, timers, partial_phasing, quiet)
+            finally:
+                rec.stack.pop()
+            e["haps"] = [list(h) for h in res.haplotypes]
+            e["bps"] = [[b.position, list(b.haplotypes), f2bits(b.confidence)] for b in res.breakpoints]
+            return res
+        self.patch(alg, "solve_polyphase_instance", solve)
+        self.patch(cp, "solve_polyphase_instance", solve)
+
+        real_cbs = alg.compute_block_starts
+
+        def cbs(am, ploidy, single_linkage=False):
+            r = real_cbs(am, ploidy, single_linkage=single_linkage)
+            rec.stack[-1]["blockstarts"] = {"reads": am_reads(am), "num_vars": am.getNumPositions(), "ploidy": ploidy,
+                                            "single_linkage": bool(single_linkage), "starts": list(r)}
+            return r
+        self.patch(alg, "compute_block_starts", cbs)
+
+        real_psb = alg.phase_single_block
+
+        def psb(block_id, allele_matrix, genotypes, prephasing, param, timers, quiet=False):
+            b = {"id": block_id, "gt_ids": [id(g) for g in genotypes], "genotypes": [dict_items(g) for g in genotypes],
+                 "nvars": allele_matrix.getNumPositions(), "subs": []}
+            rec.stack[-1]["blocks"].append(b)
+            rec.stack[-1]["cur"] = b
+            res = real_psb(block_id, allele_matrix, genotypes, prephasing, param, timers, quiet)
+            b["haps"] = [list(h) for h in res.haplotypes]
+            b["bps"] = [[x.position, list(x.haplotypes), f2bits(x.confidence)] for x in res.breakpoints]
+            return res
+        self.patch(alg, "phase_single_block", psb)
+
+        real_force = thr.force_genotypes
+
+        def force(path, haplotypes, genotypes, cov_map, allele_depths, error_rate):
+            before = [list(h) for h in haplotypes]
+            gts = [{int(a): int(n) for a, n in g.items()} for g in genotypes]
+            out = real_force(path, haplotypes, genotypes, cov_map, allele_depths, error_rate)
+            rec.stack[-1]["cur"]["force"] = {"before": before, "gts": gts, "after": [list(h) for h in out]}
+            return out
+        self.patch(thr, "force_genotypes", force)
+
+        real_rt = alg.run_threading
+
+        def rt(*a, **kw):
+            threads, haps = real_rt(*a, **kw)
+            rec.stack[-1]["cur"]["threaded"] = {"threads": [list(t) for t in threads], "haps": [list(h) for h in haps]}
+            return threads, haps
+        self.patch(alg, "run_threading", rt)
+
+        real_fs = alg.find_subinstances
+
+        def fs(allele_matrix, clustering, threads, haplotypes):
+            r = real_fs(allele_matrix, clustering, threads, haplotypes)
+            rec.stack[-1]["cur"]["subinst"] = [{"ts": list(ts), "snps": [allele_matrix.globalToLocal(g) for g in subm.getPositions()]}
+                                               for _, ts, subm in r]
+            rec.stack[-1]["cur"]["first_sub_solve"] = len(rec.solves)
+            return r
+        self.patch(alg, "find_subinstances", fs)
+
+        real_isr = alg.integrate_sub_results
+
+        def isr(allele_matrix, sub_instances, sub_results, threads, haplotypes):
+            cur = rec.stack[-1]["cur"]
+            cur["int_threads"] = [list(t) for t in threads]
+            cur["int_before"] = [list(h) for h in haplotypes]
+            cur["sub_results"] = [{"haps": [list(h) for h in r.haplotypes],
+                                   "bps": [[b.position, list(b.haplotypes), f2bits(b.confidence)] for b in r.breakpoints]}
+                                  for r in sub_results]
+            bps = real_isr(allele_matrix, sub_instances, sub_results, threads, haplotypes)
+            cur["int_after"] = [list(h) for h in haplotypes]
+            cur["int_bps"] = [[b.position, list(b.haplotypes), f2bits(b.confidence)] for b in bps]
+            return bps
+        self.patch(alg, "integrate_sub_results", isr)
+
+        real_goa = reo.get_optimal_assignments
+
+        def goa(breakpoints, lllh, ploidy, affiliations):
+            r = real_goa(breakpoints, lllh, ploidy, affiliations)
+            rec.stack[-1]["cur"]["assign"] = {"ploidy": ploidy, "ilp": bool(affiliations) and bool(breakpoints),
+                                              "lllh": [[[list(k), f2bits(v)] for k, v in d.items()] for d in lllh],
+                                              "perms": [list(p) for p in r]}
+            return r
+        self.patch(reo, "get_optimal_assignments", goa)
+
+        real_pb = reo.permute_blocks
+
+        def pb(threads, haplotypes, breakpoints, lllh, perms):
+            cur = rec.stack[-1]["cur"]
+            cur["perm_before"] = [list(h) for h in haplotypes]
+            cur["perm_bps"] = [b.position for b in breakpoints]
+            real_pb(threads, haplotypes, breakpoints, lllh, perms)
+            cur["perm_after"] = [list(h) for h in haplotypes]
+        self.patch(reo, "permute_blocks", pb)
+
+        real_agg = alg.aggregate_results
+
+        def agg(results, ploidy, borders):
+            r = real_agg(results, ploidy, borders)
+            rec.stack[-1]["agg"] = {"ploidy": ploidy, "borders": sorted(borders) if borders else [],
+                                    "blocks": [[len(x.haplotypes[0]), [[b.position, list(b.haplotypes), f2bits(b.confidence)]
+                                                                      for b in x.breakpoints]] for x in results],
+                                    "bps": [[b.position, list(b.haplotypes), f2bits(b.confidence)] for b in r.breakpoints],
+                                    "total": len(r.haplotypes[0]) if r.haplotypes else 0}
+            return r
+        self.patch(alg, "aggregate_results", agg)
+        return self
+
+    def __exit__(self, *exc):
+        for mod, name, fn in reversed(self.saved):
+            setattr(mod, name, fn)
+        return False
+
+
+def cols_of(haps, n):
+    return [[h[p] for h in haps] for p in range(n)]
+
+
+def run_pipe(ctx, case, sc, vcf, bam, fa, d, batch):
+    """run the real run_polyphase in this process (threads=1) with the recorders; compare every recorded stage with
+    the model and the written VCF with the writer model"""
+    import io, contextlib, logging
+    from whatshap.cli.polyphase import run_polyphase
+    from whatshap.vcf import VcfReader
+    o = case["opts"]
+    k = o["ploidy"]
+    out = os.path.join(d, "out_ip.vcf")
+    mav, only_snvs, m = not o.get("no_mav"), bool(o.get("only_snvs")), o.get("min_overlap", 2)
+    kw = dict(phase_input_files=[bam], variant_file=vcf, ploidy=k, reference=fa if o.get("reference") else None,
+              output=out, samples=[o["only_sample"]] if o.get("only_sample") else [], block_cut_sensitivity=o["B"],
+              threads=1, use_prephasing=bool(o.get("prephasing")), include_haploid_sets=bool(o.get("haploid_sets")),
+              mav=mav, only_snvs=only_snvs, min_overlap=m, write_command_line_header=False)
+    logging.getLogger("whatshap").setLevel(logging.ERROR)
+    with Recorder() as rec, contextlib.redirect_stdout(io.StringIO()):
+        run_polyphase(**kw)
+    cfg = model_cfg(k, mav, only_snvs, m)
+    # the reader's tables and the records as the model sees them
+    with contextlib.redirect_stdout(io.StringIO()):
+        with VcfReader(vcf, only_snvs=only_snvs, phases=True, genotype_likelihoods=False, ploidy=k, mav=mav) as vr:
+            tables = {t.chromosome: t for t in vr}
+    _, samples, rin = sim.read_vcf(vcf)
+    _, _, rout = sim.read_vcf(out)
+    text_in, text_out = sim.read_vcf_text(vcf)[1], sim.read_vcf_text(out)[1]
+    phased_samples = [o["only_sample"]] if o.get("only_sample") else samples
+    by_key = {(e["chrom"], e["sample"]): e for e in rec.samples}
+    n_checked = 0
+    for chrom in dict.fromkeys(r["chrom"] for r in rin):
+        idx = [i for i, r in enumerate(rin) if r["chrom"] == chrom]
+        for si, s in enumerate(samples):
+            recs = []
+            for i in idx:
+                g = rin[i]["calls"][si].get("GT")
+                al = None if (not g or g[0] is None or any(a is None for a in g[0])) else list(g[0])
+                recs.append({"pos": rin[i]["pos"], "ref": rin[i]["ref"], "alts": rin[i]["alts"], "gt": al,
+                             "phased": bool(g and g[1])})
+            mrecs = model_recs(recs)
+            t = tables.get(chrom)
+            table = [[v.position, sorted(g.as_vector())] for v, g in zip(t.variants, t.genotypes_of(s))] if t else []
+            sub = {"chrom": chrom, "sample": s}
+            batch.append(({"op": "c15.readtable", "cfg": cfg, "recs": mrecs}, ("readtable", dict(case, where=sub), table)))
+            got = [[[] if (not (g := rout[i]["calls"][si].get("GT")) or g[0] is None or any(a is None for a in g[0]))
+                    else list(g[0]), bool(g and g[1]), rout[i]["calls"][si].get("PS")] for i in idx]
+            e = by_key.get((chrom, s))
+            if s not in phased_samples or e is None or "comps" not in e:
+                # sample not phased on this chromosome (not requested, < 2 heterozygous variants, or no read left):
+                # its calls are written as they were read
+                for i in idx:
+                    if text_in[i][2][si] != text_out[i][2][si] and [x for x in (text_in[i][1] or "").split(":")] == \
+                            [x for x in (text_out[i][1] or "").split(":")]:
+                        ctx.fail(f"{chrom}:{rin[i]['pos'] + 1} {s}: sample is not phased on this chromosome but its call changed "
+                                 f"{text_in[i][2][si]} -> {text_out[i][2][si]}", case, key="cli-unphased-sample-changed")
+                        break
+                if s in phased_samples:
+                    # the model must agree that the solver is not reached
+                    table_rows = [[p, 1, True, True, g, False] for p, g in table]
+                    reads = e["reads"] if e else []
+                    batch.append(({"op": "c15.glue", "cfg": cfg, "table": table_rows, "reads": reads},
+                                  ("gluekind", dict(case, where=sub), "no-reads" if e else "few-variants")))
+                continue
+            n_checked += 1
+            # reader contract (hypothesis of genotype_list_aligned): alleles only at the variants asked for
+            asked = set(e["asked"])
+            if any(p not in asked for r in e["reads"] for p, _ in r):
+                ctx.fail(f"{chrom} {s}: the BAM reader returned a read with a position it was not asked for", case,
+                         key="reader-contract")
+            top = rec.solves[e["top"]]
+            table_rows = [[p, 1, True, True, g, False] for p, g in table]
+            impl = {"kind": "solve", "het": [[p, g] for p, g in table if len(set(g)) > 1],
+                    "cols": top["cols"], "rows": e["table"], "genotypes": top["genotypes"], "nkept": top["nreads"]}
+            if sorted(asked) != [p for p, _ in impl["het"]]:
+                ctx.fail(f"{chrom} {s}: the BAM reader was asked for {sorted(asked)}, heterozygous rows are "
+                         f"{[p for p, _ in impl['het']]}", case, key="glue-het-rows")
+            batch.append(({"op": "c15.glue", "cfg": cfg, "table": table_rows, "reads": e["reads"]},
+                          ("glue", dict(case, where=sub), impl)))
+            # alignment oracle
+            tb = dict((p, g) for p, g in table)
+            if len(top["genotypes"]) != len(top["cols"]) or any(
+                    sorted(a for a, n in gl for _ in range(n)) != tb.get(p) for p, gl in zip(top["cols"], top["genotypes"])):
+                ctx.fail(f"{chrom} {s}: genotype list {top['genotypes']} is not aligned with the allele-matrix columns "
+                         f"{top['cols']} (input genotypes {[tb.get(p) for p in top['cols']]})", case, key="glue-misaligned")
+            # cuts, components, super-reads (existing ops) on the recorded values
+            cu = e["cuts"]
+            batch.append(({"op": "c15.cuts", "ploidy": cu["ploidy"], "B": cu["B"], "bps": cu["bps"]},
+                          ("cuts", dict(case, where=sub), {"cuts": cu["cuts"], "hap_cuts": cu["hap_cuts"]})))
+            if cu["bps"] != top["bps"]:
+                ctx.fail(f"{chrom} {s}: compute_cut_positions got other breakpoints than the solver returned", case,
+                         key="glue-breakpoints")
+            ncol = len(top["cols"])
+            hcols = cols_of(top["haps"], ncol)
+            batch.append(({"op": "c15.components", "acc": top["cols"], "cuts": cu["cuts"], "cols": hcols},
+                          ("psi", dict(case, acc=top["cols"], where=sub),
+                           {"dict": e["comps"], "phased": sorted({p for r in e["superreads"] for p, _ in r})})))
+            # the writer
+            batch.append(({"op": "c15.write", "cfg": cfg, "repaired": True, "recs": mrecs, "cols": top["cols"],
+                           "haps": hcols, "comps": e["comps"]}, ("write", dict(case, where=sub), got)))
+    # every solve_polyphase_instance call: blocks, slices, block internals, aggregation
+    for e in rec.solves:
+        check_solve_record(ctx, case, e, rec, batch)
+    ctx.dist("pipe_samples_checked", n_checked)
+    ctx.dist("pipe_sub_instances", min(10, sum(1 for e in rec.solves if e["depth"] > 0)))
+    return n_checked
+
+
+def check_solve_record(ctx, case, e, rec, batch):
+    k, n = e["ploidy"], len(e["cols"])
+    where = {"depth": e["depth"], "cols": e["cols"][:3]}
+    bs = e.get("blockstarts")
+    if bs is None:
+        return
+    # block starts + slices: block b must get genotype_list[start:end] (object identity)
+    pos_of = {gid: i for i, gid in enumerate(e["gl_ids"])}
+    slices = [[pos_of.get(g, -1) for g in b["gt_ids"]] for b in sorted(e["blocks"], key=lambda b: b["id"])]
+    batch.append(({"op": "c15.blockstarts", "reads": bs["reads"], "num_vars": bs["num_vars"], "ploidy": bs["ploidy"],
+                   "single_linkage": bs["single_linkage"], "genotypes": [[i] for i in range(len(e["gl_ids"]))]},
+                  ("exact", dict(case, where=where), {"starts": bs["starts"], "slices": [[[i] for i in sl] for sl in slices]})))
+    if len(e["genotypes"]) != n:
+        ctx.fail(f"solve_polyphase_instance: {len(e['genotypes'])} genotypes for {n} columns (depth {e['depth']})", case,
+                 key="glue-misaligned")
+    ag = e.get("agg")
+    if ag:
+        batch.append(({"op": "c15.aggregate", "ploidy": ag["ploidy"], "borders": ag["borders"], "blocks": ag["blocks"]},
+                      ("exact", dict(case, where=where), {"bps": ag["bps"], "total": ag["total"]})))
+        if ag["total"] != n:
+            ctx.fail(f"aggregate_results returned {ag['total']} columns for {n} allele-matrix columns", case, key="agg-length")
+    for b in e["blocks"]:
+        nv = b["nvars"]
+        if nv < 2:
+            gv = sorted(a for a, c in b["genotypes"][0] for _ in range(c))
+            batch.append(({"op": "c15.singleton", "gv": gv}, ("single", dict(case, where=where), [h[0] for h in b["haps"]])))
+            continue
+        f = b.get("force")
+        if f:
+            kk = len(f["before"])
+            for p in range(len(f["gts"])):
+                col = [f["before"][h][p] for h in range(kk)]; oc = [f["after"][h][p] for h in range(kk)]
+                gv = sorted(a for a, c in f["gts"][p].items() for _ in range(c))
+                if -1 not in col and sorted(oc) != gv:
+                    ctx.fail(f"force_genotypes (in the pipeline) turned column {col} into {oc}, genotype is {gv}", case,
+                             key=F8_KEY if oc == col else "force-multiset")
+                batch.append(({"op": "c15.force", "col": col, "gv": gv, "out": oc}, ("force", dict(case, where=where), p)))
+        if "int_before" in b:
+            kk = len(b["int_before"])
+            subs = b.get("subinst", [])
+            # the recursive solve calls made for the sub-instances, in order
+            sub_solves = [x for x in rec.solves[b["first_sub_solve"]:] if x["depth"] == e["depth"] + 1][:len(subs)]
+            for p in range(nv):
+                col = [b["int_before"][h][p] for h in range(kk)]
+                steps, want_sub = [], []
+                for si, (su, sr) in enumerate(zip(subs, b["sub_results"])):
+                    if p in su["snps"]:
+                        i = su["snps"].index(p)
+                        steps.append([su["ts"], [sr["haps"][j][i] for j in range(len(su["ts"]))]])
+                        want_sub.append(sorted(a for a, c in sub_solves[si]["genotypes"][i] for _ in range(c))
+                                        if si < len(sub_solves) else None)
+                if steps:
+                    batch.append(({"op": "c15.writeback", "col": col, "steps": steps},
+                                  ("writeback", dict(case, where=where),
+                                   {"out": [b["int_after"][h][p] for h in range(kk)], "subgenotypes": want_sub})))
+            batch.append(({"op": "c15.integrate", "threads": b["int_threads"],
+                           "subs": [[su["snps"], su["ts"], sr["bps"]] for su, sr in zip(subs, b["sub_results"])]},
+                          ("exact", dict(case, where=where), {"out": b["int_bps"]})))
+            if any(not (0 <= x[0] < nv) for x in b["int_bps"]) or any(a[0] >= c[0] for a, c in zip(b["int_bps"], b["int_bps"][1:])):
+                ctx.fail(f"integrate_sub_results: breakpoint positions {[x[0] for x in b['int_bps']]} in a block of {nv}", case,
+                         key="block-breakpoints")
+        a = b.get("assign")
+        if a:
+            for pm in a["perms"]:
+                if sorted(pm) != list(range(a["ploidy"])):
+                    ctx.fail(f"get_optimal_assignments (in the pipeline): {pm} is not a permutation", case,
+                             key="reorder-not-a-permutation")
+            if not a["ilp"] and a["lllh"]:
+                batch.append(({"op": "c15.assignments", "ploidy": a["ploidy"], "lllh": a["lllh"]},
+                              ("exact", dict(case, where=where), {"assignments": a["perms"]})))
+        if "perm_before" in b and a:
+            kk = len(b["perm_before"])
+            batch.append(({"op": "c15.permute", "cols": cols_of(b["perm_before"], nv), "bps": b["perm_bps"], "perms": a["perms"]},
+                          ("permute", dict(case, where=where), cols_of(b["perm_after"], nv))))
+
+
+def after_gluekind(ctx, req, meta, ans):
+    _, case, impl = meta
+    if ans.get("kind") != impl:
+        ctx.disagree("c15.glue", case, impl, ans.get("kind"))
+
+
+def after_single(ctx, req, meta, ans):
+    _, case, impl = meta
+    if ans != impl:
+        ctx.disagree("c15.singleton", case, impl, ans)
+
+
+def after_writeback(ctx, req, meta, ans):
+    _, case, impl = meta
+    if ans.get("out") != impl["out"] or not ans.get("disjoint"):
+        ctx.disagree("c15.writeback", case, impl, ans)
+    for w, m in zip(impl["subgenotypes"], ans.get("subgenotypes", [])):
+        if w is not None and w != sorted(m):
+            ctx.disagree("c15.writeback", case, impl, ans)
+            break
 
 # ------------------------------------------------------------------------------------------------
 # CLI
@@ -372,6 +1105,18 @@ def gen_cli(rng, thorough=False, scale=1):
             "haploid_sets": rng.random() < 0.2, "only_sample": None, "reference": rng.random() < 0.7}
     if two and rng.random() < 0.5:
         opts["only_sample"] = "S1"
+    # options the glue model covers
+    if rng.random() < 0.25:
+        opts["only_snvs"] = True
+    if rng.random() < 0.12:
+        opts["no_mav"] = True
+    if rng.random() < 0.3:
+        opts["min_overlap"] = rng.choice([3, 3, 4])
+    if rng.random() < 0.5:
+        # records the reader skips (>= 16 ALTs, mixed SNV/indel ALTs under --only-snvs, no ALT) or second records at the
+        # position of a phasable variant (F50)
+        first = list(sc.contigs)[0]
+        opts["extra"] = {first: c15_glue.extra_records(rng, sc.variants[first], k)}
     if rng.random() < 0.3:
         sc.extra_samples = {"X9": k}
     # a few missing genotypes
@@ -447,7 +1192,26 @@ def _coverage(sc, chrom, pos, sample):
     return n
 
 
-def run_cli(ctx, case):
+def insert_extra(sc, recs, extra):
+    """insert the additional records (opts["extra"]) into the record list of the scenario"""
+    if not extra:
+        return recs
+    out, idx = [], 0
+    ns = len(sc.all_samples())
+    for name in sc.contigs:
+        nv = len(sc.variants[name])
+        ex = extra.get(name, [])
+        for i in range(nv):
+            r = recs[idx]; idx += 1
+            mk = lambda x: {"chrom": name, "pos": r["pos"], "ref": x["ref"], "alts": x["alts"], "format": list(r["format"]),
+                            "calls": [dict({kk: "." for kk in r["format"]}, GT=x["gt"]) for _ in range(ns)]}
+            out += [mk(x) for x in ex if x["at"] == i and x["before"]]
+            out.append(r)
+            out += [mk(x) for x in ex if x["at"] == i and not x["before"]]
+    return out
+
+
+def run_cli(ctx, case, batch=None):
     sc = c15_poly.PolyScenario.from_case(case["scenario"])
     o = case["opts"]
     k = o["ploidy"]
@@ -469,6 +1233,7 @@ def run_cli(ctx, case):
                         c["PS"] = "."
                     if ps is not None and len(set(col)) > 1 and "." not in r["calls"][0]["GT"]:
                         r["calls"][0] = {"GT": "|".join(map(str, col)), "PS": ps}
+        recs = insert_extra(sc, recs, o.get("extra"))
         fa, bam, vcf = sc.write(d, records=recs, fmt_defs=fmt_defs)
         out = os.path.join(d, "out.vcf")
         args = ["polyphase", vcf, bam, "--ploidy", k, "-B", o["B"], "-o", out, "--threads", o["threads"]]
@@ -480,6 +1245,12 @@ def run_cli(ctx, case):
             args.append("--include-haploid-sets")
         if o.get("only_sample"):
             args += ["--sample", o["only_sample"]]
+        if o.get("only_snvs"):
+            args.append("--only-snvs")
+        if o.get("no_mav"):
+            args.append("--no-mav")
+        if o.get("min_overlap"):
+            args += ["--min-overlap", o["min_overlap"]]
         rc, so, se, _ = sim.whatshap(args, ctx.overlay, timeout=900)
         ctx.evaluated()
         ctx.dist("cli_ploidy", k); ctx.dist("cli_B", o["B"]); ctx.dist("cli_prephasing", bool(o.get("prephasing")))
@@ -494,6 +1265,13 @@ def run_cli(ctx, case):
         tin, tout = sim.read_vcf_text(vcf)[1], sim.read_vcf_text(out)[1]
         phased_samples = [o["only_sample"]] if o.get("only_sample") else list(sc.samples) + list(sc.extra_samples)
         n_phased = check_cli_output(ctx, case, sc, samples, rin, rout, tin, tout, phased_samples, samples_o)
+        if batch is not None:
+            try:
+                run_pipe(ctx, case, sc, vcf, bam, fa, d, batch)
+            except Exception as e:
+                import traceback
+                ctx.fail(f"in-process run_polyphase / recorder raised {type(e).__name__}: {e} "
+                         f"({traceback.format_exc().splitlines()[-3].strip()})", case, key="pipe-exception")
         if n_phased >= 2:
             ctx.nontrivial(json.dumps(case, sort_keys=True)[:4000])
         ctx.dist("cli_phased_variants", min(n_phased, 20))
@@ -509,6 +1287,29 @@ def check_cli_output(ctx, case, sc, samples, rin, rout, tin, tout, phased_sample
         fail(f"records/samples differ: {len(rin)} -> {len(rout)} records, samples {samples} -> {samples_o}", "cli-records")
         return 0
     n_phased = 0
+    # F50: a record that does not become a row of the variant table is passed through (never phased, alleles unchanged)
+    o_ = case["opts"]
+    for chrom in dict.fromkeys(r["chrom"] for r in rin):
+        idx = [i for i, r in enumerate(rin) if r["chrom"] == chrom]
+        for si, s in enumerate(samples):
+            if s not in phased_samples:
+                continue
+            rr = []
+            for i in idx:
+                g = rin[i]["calls"][si].get("GT")
+                rr.append({"pos": rin[i]["pos"], "ref": rin[i]["ref"], "alts": rin[i]["alts"],
+                           "gt": None if (not g or g[0] is None or any(a is None for a in g[0])) else list(g[0])})
+            acc = reader_accepts(rr, o_["ploidy"], not o_.get("no_mav"), bool(o_.get("only_snvs")))
+            if acc is None:
+                continue
+            for j, i in enumerate(idx):
+                gb = rout[i]["calls"][si].get("GT")
+                ga = rin[i]["calls"][si].get("GT")
+                same_alleles = gb and ga and sorted(map(str, gb[0] or ())) == sorted(map(str, ga[0] or ()))
+                if j not in acc and tin[i][2][si] != tout[i][2][si] and (not same_alleles or gb[1]):
+                    fail(f"{chrom}:{rin[i]['pos'] + 1} {s}: record {rin[i]['ref']}>{','.join(rin[i]['alts'])[:30] or '.'} is skipped "
+                         f"by the VCF reader but its call {tin[i][2][si]} was written as {tout[i][2][si]}",
+                         "cli-skipped-record-phased")
     groups = collections.defaultdict(list)   # (sample, chrom) -> [(pos, ps)] in file order
     het_pos = collections.defaultdict(list)
     for a, b, ta, tb in zip(rin, rout, tin, tout):
@@ -563,7 +1364,17 @@ def check_cli_output(ctx, case, sc, samples, rin, rout, tin, tout, phased_sample
                     groups[(s, a["chrom"])].append((a["pos"], ps))
                     n_phased += 1
     # phase sets: disjoint intervals in the order of the sample's phased variants, named by the first variant
+    untouched = collections.defaultdict(lambda: True)   # (sample, chrom): every call string as in the input
+    for a, ta, tb in zip(rin, tin, tout):
+        for si, s in enumerate(samples):
+            if ta[2][si] != tb[2][si] or ta[1] != tb[1]:
+                untouched[(s, a["chrom"])] = False
     for (s, chrom), lst in groups.items():
+        if untouched[(s, chrom)]:
+            # the sample was not phased on this chromosome (< 2 heterozygous variants or no read left): whatever phase
+            # information the input carried is passed through and is not polyphase's doing
+            ctx.dist("cli_sample_passed_through", 1)
+            continue
         closed, cur, prev_last = set(), None, -1
         for i, (pos, ps) in enumerate(lst):
             if ps != cur:
@@ -589,10 +1400,17 @@ def check_cli_output(ctx, case, sc, samples, rin, rout, tin, tout, phased_sample
 # ------------------------------------------------------------------------------------------------
 
 CHECKS = {"force": (check_force, after_force), "permute": (check_permute, after_exact),
-          "cuts": (check_cuts, after_exact), "psi": (check_psi, after_exact)}
+          "cuts": (check_cuts, after_exact), "psi": (check_psi, after_exact),
+          "glue": (check_glue, after_glue), "vcfio": (check_vcfio, None), "agg": (check_agg, None),
+          "threads": (check_threads, None), "assign": (check_assign, None)}
+AFTER = {"force": after_force, "permute": after_exact, "cuts": after_exact, "psi": after_exact, "exact": after_exact,
+         "glue": after_glue, "blockstarts": after_blockstarts, "readtable": after_readtable, "write": after_write,
+         "gluekind": after_gluekind, "single": after_single, "writeback": after_writeback}
 
 
 def run(ctx):
+    import logging
+    logging.getLogger("whatshap").setLevel(logging.ERROR)     # in-process runs: no warnings about skipped duplicates etc.
     rng = ctx.rng
     batch = []
 
@@ -601,13 +1419,15 @@ def run(ctx):
             return
         answers = ctx.model.ask_many([r for r, _ in batch])
         for (req, meta), ans in zip(batch, answers):
-            CHECKS[meta[0]][1](ctx, req, meta, ans)
+            AFTER[meta[0]](ctx, req, meta, ans)
         batch.clear()
 
     def one(case):
         kind = case.get("kind")
         if kind == "cli":
-            run_cli(ctx, case)
+            run_cli(ctx, case, batch)
+            if len(batch) >= 400:
+                flush()
             return
         ctx.evaluated()
         try:
@@ -628,6 +1448,21 @@ def run(ctx):
     if th != mine:
         ctx.disagree("c15.thresholds", {"kind": "thresholds"}, mine, th)
 
+    # cut thresholds of compute_block_starts (float pow): Lean's Float.pow against CPython's pow, ploidy 2..15
+    def py_threshold(k, sl):
+        if k == 2 or sl:
+            return 1
+        t = k * k
+        for i in range(k - 1, k * k):
+            t = i
+            if k * pow((k - 2) / k, i) < 0.02:
+                break
+        return t
+    th2 = ctx.model.ask("c15.cutthreshold")
+    mine2 = [[py_threshold(k, False), py_threshold(k, True)] for k in range(2, 16)]
+    if th2 != mine2:
+        ctx.disagree("c15.cutthreshold", {"kind": "cutthreshold"}, mine2, th2)
+
     if ctx.replay:
         one(json.load(open(ctx.replay))["case"]); flush(); return
     for _, c in ctx.corpus():
@@ -641,6 +1476,12 @@ def run(ctx):
         one(gen_permute(rng))
         one(gen_cuts(rng))
         one(gen_psi(rng))
+        one(c15_glue.gen_glue(rng))
+        one(c15_glue.gen_agg(rng))
+        one(c15_glue.gen_threads(rng))
+        one(c15_glue.gen_assign(rng))
+        if i % 3 == 0:
+            one(c15_glue.gen_vcfio(rng))
     flush()
     # targeted F8 search, in-process: very deep clusters
     for i in range((60 if q else 600) * ctx.scale):
